@@ -253,6 +253,7 @@ func c08Settle(r *sysRun, busy bool, final bool) {
 // commonExitChecks: C14 hygiene + exit status sanity, shared by all sys scenarios.
 func commonExitChecks(r *sysRun) {
 	c := r.c
+	r.collectOutput()
 	if unk := r.tty.Unknown; len(unk) > 0 {
 		panic("zsim: INFRA VT emulator met sequences it does not know: " + strings.Join(unk, ", "))
 	}
